@@ -390,7 +390,11 @@ func rtExec(a *absMsg, r *Rng, ep, dp string) (args []string, obs string) {
 	prefix := []byte{0xde, 0xad, 0xbe}
 	obs = withWatchdog(func() string {
 		if ep == "B" {
-			out, err = v.MarshalMsg(append([]byte{}, prefix...))
+			// the caller's buffer: a prefix that must stay, and spare capacity holding old bytes (a scratch buffer
+			// that is reused for every message), which the encoder must overwrite, not rely on
+			scratch := bytes.Repeat([]byte{0xa5}, len(prefix)+8192)
+			copy(scratch, prefix)
+			out, err = v.MarshalMsg(scratch[:len(prefix)])
 			if err == nil {
 				if !bytes.HasPrefix(out, prefix) {
 					return "prefix-modified"
